@@ -146,7 +146,17 @@ func checkFixed(width int, v uint64) {
 	binary.BigEndian.PutUint64(want, v)
 	want = want[8-width:]
 	for dl := 0; dl <= width+1; dl++ {
-		dst := make([]byte, dl)
+		// the destination is a window of a larger array (cap > len): what lies behind it belongs to somebody else
+		arena := bytes.Repeat([]byte{0xA5}, dl+width+4)
+		dst := arena[:dl]
+		defer func(dl int) {
+			for _, b := range arena[dl:] {
+				if b != 0xA5 {
+					fail(fmt.Sprintf("fixed%d overrun", width), "Marshal width %d value %#x into a %d-byte window of a larger array wrote behind the window", width, v, dl)
+					return
+				}
+			}
+		}(dl)
 		var n int
 		var err error
 		switch width {
@@ -259,13 +269,21 @@ func checkBytes(ln int, allDst bool) {
 	}
 	for _, dl := range dls {
 		for _, str := range []bool{false, true} {
-			dst := make([]byte, dl)
+			// the destination is a window of a larger array (cap > len): what lies behind it belongs to somebody else
+			arena := bytes.Repeat([]byte{0xA5}, dl+sz+4)
+			dst := arena[:dl]
 			var n int
 			var err error
 			if str {
 				n, err = xbinary.MarshalString(string(v), dst)
 			} else {
 				n, err = xbinary.MarshalBytes(v, dst)
+			}
+			for _, b := range arena[dl:] {
+				if b != 0xA5 {
+					fail("bytes overrun", "Marshal(len %d, string=%v) into a %d-byte window of a larger array (needs %d) wrote behind the window (n=%d err=%v)", ln, str, dl, sz, n, err)
+					return
+				}
 			}
 			if dl < sz {
 				if err == nil || n != 0 {
